@@ -383,4 +383,6 @@ def model_check(run, tn, td, mode, maxedits, nrandom, maxperturb, name):
 
 def judge(run, traces, props, label="RemapTrace"):
     consts = "Props = {" + ", ".join(f'"{p}"' for p in props) + "}"
-    return C.judge("RemapTrace", traces, run.dir, consts=consts, shard=max(100, len(traces) // 16 + 1), spec="TraceSpec", heap="3g", label=label)
+    # (very large trace sets - the thorough tier - are judged by eight JVMs at a time: this process already holds several GB of traces)
+    return C.judge("RemapTrace", traces, run.dir, consts=consts, shard=max(100, len(traces) // 16 + 1), spec="TraceSpec", heap="3g", label=label,
+                   jobs=8 if len(traces) > 120000 else C.NCPU)
